@@ -5,6 +5,8 @@ import (
 	"strconv"
 
 	"google.golang.org/grpc"
+	"google.golang.org/grpc/codes"
+	"google.golang.org/grpc/status"
 
 	"github.com/smart-core-os/sc-api/go/traits"
 )
@@ -33,14 +35,20 @@ func (m *ModelServer) ListWasteRecords(ctx context.Context, req *traits.ListWast
 	pageToken := req.GetPageToken()
 	startIndex := m.model.GetWasteRecordCount()
 	if pageToken != "" {
-		_, err := strconv.Atoi(req.GetPageToken())
+		tokenIndex, err := strconv.Atoi(pageToken)
 		if err != nil {
-			return nil, err
+			return nil, status.Errorf(codes.InvalidArgument, "bad page token: %v", err)
 		}
-		startIndex, _ = strconv.Atoi(pageToken)
+		if tokenIndex < 0 || tokenIndex > startIndex {
+			return nil, status.Errorf(codes.InvalidArgument, "bad page token: %d is not within the %d records", tokenIndex, startIndex)
+		}
+		startIndex = tokenIndex
 	}
 
 	count := req.PageSize
+	if count < 0 {
+		return nil, status.Errorf(codes.InvalidArgument, "bad page size: %d is negative", count)
+	}
 	if count == 0 {
 		count = 50
 	} else if count > 1000 {
